@@ -20,7 +20,10 @@ CFG = dict(
               "cubeWelded_closed", "quadTris_eq_table", "cubeQuads_closed_mod_merge",
               "uvSphere_outward", "uvSphereUnwelded_outward", "sphere_normals_outward",
               "cube_outward", "cubeWeldedPos_eq_table", "cube_normals_outward", "cubeQuads_outward",
-              "cylinder_outward", "cylinder_normals_outward", "hemisphere_outward"],
+              "cylinder_outward", "cylinder_normals_outward", "hemisphere_outward",
+              "cubeQuads_normals_outward", "uvSphere_inscribed",
+              "cube_volume", "cubeQuads_volume", "cylinder_volume", "cylinder_volume_bounds",
+              "uvSphere_volume", "uvSphere_volume_bounds", "uvSphereUnwelded_volume"],
     streams=[dict(name="c18", n=dict(quick=30, thorough=60),
                   ulps={"c18.pos.sphere": _SIN, "c18.pos.sphereu": _SIN, "c18.pos.hemi": _SIN, "c18.nrm.sphere": _SINN,
                         "c18.pos.cyl": _ROT, "c18.nrm.cyl": _ROTN, "c18.pos.cubeq": _ROT, "c18.nrm.cubeq": _ROTN})],
